@@ -143,6 +143,7 @@ def Step.outcome (h : Heap) : Step → Outcome Unit
   | .setArray n ids => (h.update (some n) (.arr ids)).2
   | .setObject n kv => (h.update (some n) (.obj kv)).2
   | .setNode n v => (h.setNode n v).2
+  | .newNull _ | .newNumeric _ _ | .newString _ _ | .newBool _ _ | .newArray _ | .newObject _ => .ok ()
 
 /-- **every step is accepted, or rejected with the heap exactly as before** -/
 theorem Step.settled {h : Heap} (hs : Struct h) (ha : Acyc h) (s : Step) (hnames : ∀ x ∈ s.names, x < h.size) :
@@ -156,6 +157,12 @@ theorem Step.settled {h : Heap} (hs : Struct h) (ha : Acyc h) (s : Step) (hnames
     exact setObject_settled hs ha n (hnames n (by simp [Step.names])) kv
       (fun p hp => hnames p.2 (by simp only [Step.names, List.mem_cons, List.mem_map]; exact Or.inr ⟨p, hp, rfl⟩))
   | setNode n v => exact setNode_settled h n v
+  | newNull _ => left; rfl
+  | newNumeric _ _ => left; rfl
+  | newString _ _ => left; rfl
+  | newBool _ _ => left; rfl
+  | newArray _ => left; rfl
+  | newObject _ => left; rfl
 
 theorem validSteps_append : ∀ (pre post : List Step) (h : Heap), ValidSteps h (pre ++ post) → ValidSteps h pre ∧ ValidSteps (pre.foldl Step.run h) post
   | [], post, h, v => ⟨trivial, v⟩
